@@ -755,8 +755,36 @@ impl TryFrom<Constraint> for SubtypeElements {
     type Error = Constraint;
     fn try_from(value: Constraint) -> Result<Self, Self::Error> {
         match value {
-            Constraint::Subtype(set) => Ok(Self::SizeConstraint(Box::new(set.set))),
+            Constraint::Subtype(mut set) => {
+                // `SIZE ((1..5), ...)`: the marker of the operand's element set is kept on an element
+                if set.extensible {
+                    set.set.mark_extensible();
+                }
+                Ok(Self::SizeConstraint(Box::new(set.set)))
+            }
             other => Err(other),
+        }
+    }
+}
+
+impl ElementOrSetOperation {
+    /// Records an extension marker written behind the element set on its first element
+    /// (the PER-visible folds take the disjunction of the operands' markers).
+    fn mark_extensible(&mut self) {
+        match self {
+            ElementOrSetOperation::Element(e) => e.mark_extensible(),
+            ElementOrSetOperation::SetOperation(s) => s.base.mark_extensible(),
+        }
+    }
+}
+
+impl SubtypeElements {
+    fn mark_extensible(&mut self) {
+        if let SubtypeElements::SingleValue { extensible, .. }
+        | SubtypeElements::ValueRange { extensible, .. }
+        | SubtypeElements::ContainedSubtype { extensible, .. } = self
+        {
+            *extensible = true;
         }
     }
 }
